@@ -244,3 +244,15 @@ func ReadFile(name string) ([]byte, error) {
 	}
 	return ioutil.ReadFile(name)
 }
+
+var reinit []func()
+
+// RegisterReinit is called from generated init functions of the rewritten copy (see simify: package-level
+// channels). ReinitGlobals runs them; the simulator calls it inside each run's bubble before the world is built.
+func RegisterReinit(f func()) { reinit = append(reinit, f) }
+
+func ReinitGlobals() {
+	for _, f := range reinit {
+		f()
+	}
+}
